@@ -30,6 +30,7 @@ import (
 
 type sut struct {
 	c       *ev.Case
+	name    string // "" or "A"/"B" when a case works on two tries
 	t       *algz.Trie
 	pats    []string // as inserted (duplicates, maybe one "")
 	dpats   []string // distinct non-empty, sorted
@@ -38,6 +39,28 @@ type sut struct {
 	anyMB   bool
 	emptyIn bool
 	hash    uint64
+	// from the model replay of the breadth-first build (coverage only)
+	maxQueue, maxFanout int
+}
+
+// setPats (re)computes everything the oracle derives from the inserted pattern list.
+func (s *sut) setPats(pats []string) {
+	s.pats = pats
+	s.dpats = distinctNonEmpty(pats)
+	s.isPat = make(map[string]bool, len(s.dpats))
+	s.anyMB, s.emptyIn = false, false
+	for _, p := range s.dpats {
+		s.isPat[p] = true
+		if !isASCII(p) {
+			s.anyMB = true
+		}
+	}
+	s.hasFFFD = hasRune(pats, utf8.RuneError)
+	for _, p := range pats {
+		if p == "" {
+			s.emptyIn = true
+		}
+	}
 }
 
 func q(ss []string) string {
@@ -60,19 +83,8 @@ func q(ss []string) string {
 // build inserts the patterns and builds the failure links; with rebuild it builds
 // once after a first part, inserts the rest and builds again.
 func build(c *ev.Case, pats []string, rebuild bool) *sut {
-	s := &sut{c: c, t: &algz.Trie{}, pats: pats, dpats: distinctNonEmpty(pats), isPat: map[string]bool{}}
-	for _, p := range s.dpats {
-		s.isPat[p] = true
-		if !isASCII(p) {
-			s.anyMB = true
-		}
-	}
-	s.hasFFFD = hasRune(pats, utf8.RuneError)
-	for _, p := range pats {
-		if p == "" {
-			s.emptyIn = true
-		}
-	}
+	s := &sut{c: c, t: &algz.Trie{}}
+	s.setPats(pats)
 	s.hash = hashStrings(uint64(len(pats)), pats)
 	cut := -1
 	if rebuild && len(pats) > 1 {
@@ -88,19 +100,8 @@ func build(c *ev.Case, pats []string, rebuild bool) *sut {
 			// queries between the two builds (judged against the patterns inserted
 			// so far): whatever they cache must not survive the next Insert + build
 			if c.Rng.Chance(2, 3) {
-				part := &sut{c: c, t: s.t, pats: pats[:i], dpats: distinctNonEmpty(pats[:i]), isPat: map[string]bool{}}
-				for _, pp := range part.dpats {
-					part.isPat[pp] = true
-					if !isASCII(pp) {
-						part.anyMB = true
-					}
-				}
-				part.hasFFFD = hasRune(pats[:i], utf8.RuneError)
-				for _, pp := range pats[:i] {
-					if pp == "" {
-						part.emptyIn = true
-					}
-				}
+				part := &sut{c: c, t: s.t}
+				part.setPats(pats[:i])
 				all := distinctNonEmpty(pats)
 				for k := 0; k < 3; k++ {
 					// texts made of ALL patterns, so that nodes the later patterns hang off are visited
@@ -145,7 +146,10 @@ func (s *sut) patternCoverage() {
 	var pre, suf, inf bool
 	for _, a := range s.dpats {
 		for _, b := range s.dpats {
-			if a == b || len(a) >= len(b) || len(s.dpats) > 80 {
+			if len(s.dpats) > 80 {
+				break
+			}
+			if a == b || len(a) >= len(b) {
 				continue
 			}
 			switch {
@@ -161,6 +165,9 @@ func (s *sut) patternCoverage() {
 			switch utf8.RuneLen(r) {
 			case 1:
 				c.Add("pattern_runes_1byte", 1)
+				if r == 0 {
+					c.Add("pattern_runes_NUL", 1)
+				}
 			case 2:
 				c.Add("pattern_runes_2byte", 1)
 			case 3:
@@ -182,7 +189,18 @@ func (s *sut) patternCoverage() {
 	if s.hasFFFD {
 		c.Add("sets_with_real_U+FFFD", 1)
 	}
-	g, w, mq, nodes := queueSim(s.dpats)
+	g, w, mq, nodes, fan := queueSim(s.dpats)
+	s.maxQueue, s.maxFanout = mq, fan
+	c.Max("max_node_fanout", int64(fan))
+	if fan >= 128 {
+		c.Add("tries_with_node_fanout_ge_128", 1)
+	}
+	if fan >= 256 {
+		c.Add("tries_with_node_fanout_ge_256", 1)
+	}
+	if mq > 65536 {
+		c.Add("tries_with_bfs_queue_over_65536", 1)
+	}
 	c.Add("bfs_queue_growths", int64(g))
 	c.Add("bfs_queue_growths_wrapped", int64(w))
 	c.Max("max_bfs_queue_length", int64(mq))
@@ -230,6 +248,8 @@ func (s *sut) checkText(text string, kind int) bool {
 		c.Add("texts_random", 1)
 	case textOverlap:
 		c.Add("texts_overlap_construction", 1)
+	case textNear:
+		c.Add("texts_near_valid", 1)
 	default:
 		c.Add("texts_byte_strings", 1)
 	}
@@ -489,6 +509,7 @@ type cfg struct {
 	match      bool
 	prefix     bool
 	textRunes  []int // nil: 6..48
+	near       bool  // all texts and half of the keys are "nearly valid" re-encodings (strengthen.go)
 }
 
 func (g cfg) run(c *ev.Case) {
@@ -516,12 +537,20 @@ func (g cfg) run(c *ev.Case) {
 	var firstText, firstKey string
 	if g.match {
 		kinds := []int{textRandom, textRandom, textOverlap, textOverlap, textBytes, textBytes}
+		if g.near {
+			kinds = []int{textNear, textNear, textNear, textNear, textNear, textNear}
+		}
 		for i, k := range kinds {
 			tr := g.textRunes
 			if tr == nil {
 				tr = []int{6, 12, 24, 48}
 			}
-			text := genText(rng, al, s.dpats, k, tr[rng.Intn(len(tr))])
+			var text string
+			if k == textNear {
+				text = nearValid(c, genValidText(rng, al, s.dpats, rng.Pick(textOverlap, textOverlap, textRandom), tr[rng.Intn(len(tr))]))
+			} else {
+				text = genText(rng, al, s.dpats, k, tr[rng.Intn(len(tr))])
+			}
 			c.Max("max_text_bytes", int64(len(text)))
 			if i == 2 {
 				firstText = text
@@ -534,6 +563,10 @@ func (g cfg) run(c *ev.Case) {
 	if g.prefix {
 		for i := 0; i < 6; i++ {
 			key, class := s.genKey(al)
+			if g.near && i%2 == 0 && len(s.dpats) > 0 {
+				p := s.dpats[rng.Intn(len(s.dpats))]
+				key, class = nearValid(c, runeCut(p, 0, rng.Range(1, utf8.RuneCountInString(p)))), "near_valid"
+			}
 			if i == 0 {
 				firstKey = key
 			}
@@ -595,7 +628,7 @@ func scripted(c *ev.Case) {
 
 func main() {
 	r := ev.New("C05")
-	r.Rule("one case = one generated pattern list (1-8 patterns, or 11-40 in the wide engines; shared prefixes, suffix/infix relations, duplicates, optionally one empty pattern) inserted into a real Trie + BuildFailureLinks, then 6 texts (random, overlap constructions, arbitrary byte strings) or 6 keys; distinct = hash of (pattern list, texts/keys); non-trivial = at least one non-empty pattern and every query compared with the brute force")
+	r.Rule("one case = one generated pattern list (1-8 patterns, or 11-40 in the wide engines; shared prefixes, suffix/infix relations, duplicates, optionally one empty pattern) inserted into a real Trie + BuildFailureLinks, then 6 texts (random, overlap constructions, arbitrary byte strings) or 6 keys; distinct = hash of (pattern list, texts/keys); non-trivial = at least one non-empty pattern and every query compared with the brute force. Added engines: mixed: two related pattern lists -> two tries worked on alternately for 8-20 operations (text / key queries in every observer order, arguments repeated on the other and on the same trie, results kept and re-read later, results overwritten by the caller and the query repeated, BuildFailureLinks again with or without Inserts, Replace/ReplaceWithMask calls in between whose results are left to C06); match/near + prefix/near: patterns re-encoded as overlong sequences or with a continuation bit flipped; fanout: 400-1200 patterns of 1-3 runes over 448 runes; huge: 100000-130000 patterns; deep: one pattern of ~2^8 / 2^15 / 2^16 / 70000-150000 bytes plus its long suffix, prefix, infix, extension and sibling")
 	r.Assume("oracle = byte-wise brute force (strings.Index at every offset) over the distinct non-empty inserted patterns; patterns are always valid UTF-8, texts and keys are arbitrary bytes")
 	r.Assume("Insert(\"\") is a no-op by documentation: PrefixSearch(\"\")/FuzzySearch(\"\") may list the empty pattern at most once or not at all")
 	r.Assume("for a key that is not valid UTF-8 only soundness of PrefixSearch is demanded (every entry an inserted pattern starting with the key, each once); completeness is demanded for every valid UTF-8 key")
@@ -624,6 +657,52 @@ func main() {
 
 	r.Cases("prefix/big-ascii", r.N(60, 3000), hv, cfg{als: []alphabet{alphaABC, alphaWideA}, minN: 100, maxN: 600, maxLen: 8, prefix: true}.run)
 	r.Cases("prefix/big-utf8", r.N(60, 3000), hv, cfg{als: []alphabet{alphaMixed, alphaSib, alphaWide}, minN: 100, maxN: 600, maxLen: 8, prefix: true}.run)
+
+	// --- added after the review against LESSONS.md (strengthen.go) ---
+	r.Assume("a slice returned by FindAll / PrefixSearch / FuzzySearch is the caller's: overwriting it must not influence later queries, and later calls must not change a slice returned earlier")
+	edge := []alphabet{alphaMixed, alphaBound, alphaSib, alphaEdge, alphaNul, alphaABC, alphaFFFDSib}
+	r.Cases("mixed", r.N(40000, 800000), hv, mixed)
+	r.Cases("match/near", r.N(25000, 800000), hv, cfg{als: edge, minN: 1, maxN: 8, maxLen: 5, match: true, near: true}.run)
+	r.Cases("prefix/near", r.N(15000, 500000), hv, cfg{als: edge, minN: 1, maxN: 8, maxLen: 5, prefix: true, near: true}.run)
+	r.Cases("fanout", r.N(1000, 30000), hv, cfg{als: []alphabet{alphaFan}, minN: 400, maxN: 1200, maxLen: 3, match: true, prefix: true}.run)
+	r.Cases("huge", r.N(4, 16), hv, huge)
+	r.Cases("deep", r.N(24, 400), hv, deep)
+
+	r.Require("mixed_queries", 50000)
+	r.Require("first_observer_after_build_Match", 1000)
+	r.Require("first_observer_after_build_FindAll", 1000)
+	r.Require("first_observer_after_build_PrefixSearch", 1000)
+	r.Require("first_observer_after_build_FuzzySearch", 1000)
+	r.Require("findall_not_preceded_by_match", 5000)
+	r.Require("fuzzy_before_prefix", 2000)
+	r.Require("kept_nonempty_results_verified_after_later_calls", 10000)
+	r.Require("nonempty_results_scribbled", 5000)
+	r.Require("requery_after_scribble", 5000)
+	r.Require("same_argument_on_the_other_trie_back_to_back", 5000)
+	r.Require("same_argument_on_the_same_trie_again", 5000)
+	r.Require("rebuild_without_insert", 1000)
+	r.Require("replace_calls_before_a_query_on_the_same_text", 5000)
+	r.Require("insert_then_rebuild", 1000)
+	r.Require("late_pattern_on_existing_path", 300)
+	r.Require("pattern_runes_NUL", 1000)
+	r.Require("texts_near_valid", 20000)
+	r.Require("near_valid_overlong_1byte_rune_as_2", 1000)
+	r.Require("near_valid_overlong_1byte_rune_as_3", 1000)
+	r.Require("near_valid_overlong_1byte_rune_as_4", 1000)
+	r.Require("near_valid_overlong_2byte_rune_as_3", 1000)
+	r.Require("near_valid_overlong_2byte_rune_as_4", 1000)
+	r.Require("near_valid_overlong_3byte_rune_as_4", 1000)
+	r.Require("near_valid_continuation_bit_flips", 5000)
+	r.Require("prefix_keys_near_valid", 5000)
+	r.Require("tries_with_node_fanout_ge_128", 100)
+	r.Require("tries_with_node_fanout_ge_256", 20)
+	r.Require("tries_with_bfs_queue_over_65536", 3)
+	r.Require("patterns_over_255_bytes", 20)
+	r.Require("patterns_over_32767_bytes", 12)
+	r.Require("patterns_over_65535_bytes", 4)
+	r.Require("keys_over_65535_bytes", 4)
+	r.Require("deep_texts_with_occurrences", 3)
+	r.Require("texts_over_256KiB", 1)
 
 	r.Require("pattern_text_pairs", 50000)
 	r.Require("occurrences_expected", 50000)
